@@ -1,5 +1,7 @@
 """C09 -- every tract is well-formed and traceable to its source."""
 
+import pathlib
+
 import icontract
 
 from ..common import CaseTimeout, cpu_timebox, short
@@ -57,7 +59,7 @@ def tract_problem(t, k, text, source):
     if t.orig_desc != text:
         return (f"orig_desc {short(t.orig_desc, 60)!r} is not the complete "
                 f"original text")
-    if t.source != source:
+    if t.source != source or type(t.source) is not type(source):
         return f"source {t.source!r} != parent's {source!r}"
     if t.orig_index != k:
         return f"orig_index {t.orig_index} != creation position {k}"
@@ -111,7 +113,9 @@ def run_case(case, ctx, rep, pytrs):
     # Source tags are arbitrary identifiers: strings, row numbers (row 0
     # included), tuples, the empty string.
     source = ['SRC-%d' % (len(text) % 7), len(text) % 3, '', 0,
-              ('batch', len(text) % 2), (), 0.0, False][len(text) % 8]
+              ('batch', len(text) % 2), (), 0.0, False,
+              pathlib.Path('/data/leases') / f"{len(text) % 5}.txt"
+              ][len(text) % 9]
     try:
         with cpu_timebox(20):
             with ctx.guard(case):
@@ -137,6 +141,30 @@ def run_case(case, ctx, rep, pytrs):
                             break
                         if t.trs_is_error() or len(tracts) >= 2:
                             nontrivial = True
+                if len(text) % 5 == 0 and len(d.tracts):
+                    # A caller scribbles over the dict that the public
+                    # trs_to_dict() returned for these Twp/Rge/Sec strings;
+                    # the same description parsed afterwards is unaffected.
+                    ctx.hit('after-mutated-trs_to_dict')
+                    for t in d.tracts[:3]:
+                        dd = pytrs.trs_to_dict(t.trs)
+                        for key in list(dd):
+                            dd[key] = 'JUNK'
+                    d2 = pytrs.PLSSDesc(text, config=cfg,
+                                        layout=case['init_layout'],
+                                        parse_qq=case['init_parse_qq'],
+                                        source=source)
+                    if st.get('wait_to_parse') and cfg is not None:
+                        d2.parse()
+                    for k, t in enumerate(d2.tracts):
+                        why = tract_problem(t, k, text, source)
+                        if why is not None:
+                            ctx.violation(
+                                'tract-malformed', case,
+                                f"after a caller modified dicts returned by "
+                                f"trs_to_dict(): tract #{k}: {why}",
+                                dedup='mutated|' + why[:30])
+                            break
                 ctx.case([text, case['cfgtext'], kw, case['channel'],
                           case['init_layout']], nontrivial,
                          shape=case['family'].split(':')[0],
